@@ -460,7 +460,7 @@ impl Check for C01 {
         let wall = Duration::from_secs(if tier == Tier::Thorough { 300 } else { 30 });
         match &items(tier)[idx as usize] {
             Item::Srv(sc, bound) => {
-                let cfg = L2Cfg { mode: Mode::Strict, bound: Some(*bound), max_execs: 400_000, wall };
+                let cfg = L2Cfg { mode: Mode::Strict, bound: Some(*bound), max_execs: 400_000, wall, spurious_upto: None };
                 let (s2, s3) = (sc.clone(), sc.clone());
                 let found = explore_scenario::<SrvObs, _, _>(&cfg, acc, &sc.to_json(), move |o| srv_body(s2.clone(), o), |o, r| {
                     srv_judge(&s3, o, r).into_iter().map(|(k, d)| (key_for(&s3.actions, &k), d)).collect()
@@ -471,7 +471,7 @@ impl Check for C01 {
                 }
             }
             Item::Seam(sc, bound) => {
-                let cfg = L2Cfg { mode: Mode::Chess, bound: *bound, max_execs: 3_000_000, wall };
+                let cfg = L2Cfg { mode: Mode::Chess, bound: *bound, max_execs: 3_000_000, wall, spurious_upto: None };
                 let (s2, s3) = (sc.clone(), sc.clone());
                 let j = json!({"seam": "SequentialWriter", "actions": sc.actions.iter().map(|a| a.label()).collect::<Vec<_>>()});
                 let found = explore_scenario::<SeamObs, _, _>(&cfg, acc, &j, move |o| seam_body(s2.clone(), o), |o, r| {
